@@ -1,5 +1,6 @@
 import NurbsVerif.Lemmas.Hull
 import NurbsVerif.Lemmas.SurfLift
+import NurbsVerif.Lemmas.HullRat
 
 /-!
 # C18  Shapes stay inside the hull of their control points
@@ -63,5 +64,164 @@ theorem rational_coefficients_convex (n : ℕ) (N w : ℕ → K) (hN : ∀ i, i 
     (∑ i ∈ range n, N i * w i / (∑ j ∈ range n, N j * w j) = 1) ∧
     ∀ i, i < n → 0 ≤ N i * w i / (∑ j ∈ range n, N j * w j) :=
   rational_coeffs n N w hN hw hsum
+
+/-- **Volume point = convex combination**: every coordinate of the point computed by `volumePointAt`
+    is the combination of the `(pu+1)(pv+1)(pw+1)` control points active on the three spans with the
+    triple tensor-product coefficients `Nu_a · Nv_b · Nw_c`, which are non-negative and sum to one. -/
+theorem volume_point_convex_combination (pu pv pw : ℕ) (Uu Uv Uw : ℕ → K) (su sv sw : ℕ) (P : List (List K))
+    (ku kv kw : ℕ) (u v w : K) (d : ℕ)
+    (hu : SpanOk Uu ku u) (hv : SpanOk Uv kv v) (hw : SpanOk Uw kw w)
+    (hpu : pu ≤ ku) (hpv : pv ≤ kv) (hpw : pw ≤ kw) (hku : ku < su) (hkv : kv < sv) (hkw : kw < sw)
+    (hlen : P.length = su * sv * sw) (hP : NetOk d P) :
+    (∑ i ∈ range (pu+1) ×ˢ (range (pv+1) ×ˢ range (pw+1)),
+        (basisFuns pu Uu ku u).getD i.1 0 * (basisFuns pv Uv kv v).getD i.2.1 0 * (basisFuns pw Uw kw w).getD i.2.2 0 = 1) ∧
+    (∀ i ∈ range (pu+1) ×ˢ (range (pv+1) ×ˢ range (pw+1)),
+        0 ≤ (basisFuns pu Uu ku u).getD i.1 0 * (basisFuns pv Uv kv v).getD i.2.1 0 * (basisFuns pw Uw kw w).getD i.2.2 0) ∧
+    ∀ l, (volumePointAt pu pv pw Uu Uv Uw su sv P ku kv kw u v w).getD l 0
+      = ∑ i ∈ range (pu+1) ×ˢ (range (pv+1) ×ˢ range (pw+1)),
+          ((basisFuns pu Uu ku u).getD i.1 0 * (basisFuns pv Uv kv v).getD i.2.1 0 * (basisFuns pw Uw kw w).getD i.2.2 0) *
+            (ptsGet P (kv - pv + i.2.1 + sv * (ku - pu + i.1 + su * (kw - pw + i.2.2)))).getD l 0 :=
+  volumePointAt_convex pu pv pw Uu Uv Uw su sv sw P ku kv kw u v w d hu hv hw hpu hpv hpw hku hkv hkw hlen hP
+
+/-- **Convex hull for volumes**: for every linear functional `ℓ`, `ℓ` of the volume point lies between
+    any lower and upper bound of `ℓ` on the `(pu+1)(pv+1)(pw+1)` control points active on the spans. -/
+theorem volume_point_in_hull (pu pv pw : ℕ) (Uu Uv Uw : ℕ → K) (su sv sw : ℕ) (P : List (List K))
+    (ku kv kw : ℕ) (u v w : K) (d : ℕ)
+    (hu : SpanOk Uu ku u) (hv : SpanOk Uv kv v) (hw : SpanOk Uw kw w)
+    (hpu : pu ≤ ku) (hpv : pv ≤ kv) (hpw : pw ≤ kw) (hku : ku < su) (hkv : kv < sv) (hkw : kw < sw)
+    (hlen : P.length = su * sv * sw) (hP : NetOk d P) (A : ℕ → K) (lo hi : K)
+    (hlo : ∀ a b c, a ≤ pu → b ≤ pv → c ≤ pw →
+      lo ≤ ∑ l ∈ range d, A l * (ptsGet P (kv - pv + b + sv * (ku - pu + a + su * (kw - pw + c)))).getD l 0)
+    (hhi : ∀ a b c, a ≤ pu → b ≤ pv → c ≤ pw →
+      ∑ l ∈ range d, A l * (ptsGet P (kv - pv + b + sv * (ku - pu + a + su * (kw - pw + c)))).getD l 0 ≤ hi) :
+    lo ≤ ∑ l ∈ range d, A l * (volumePointAt pu pv pw Uu Uv Uw su sv P ku kv kw u v w).getD l 0 ∧
+      ∑ l ∈ range d, A l * (volumePointAt pu pv pw Uu Uv Uw su sv P ku kv kw u v w).getD l 0 ≤ hi :=
+  volumePointAt_in_hull pu pv pw Uu Uv Uw su sv sw P ku kv kw u v w d hu hv hw hpu hpv hpw hku hkv hkw hlen hP A lo hi hlo hhi
+
+/-- **The reported bounding box bounds the net**: the model of `utilities.evaluate_bounding_box`
+    (coordinatewise min / max scan) returns, in every coordinate, a lower and an upper bound of that
+    coordinate over all points of the net. -/
+theorem bounding_box_bounds_net (d : ℕ) (P : List (List K)) (hP : NetOk d P) (i : ℕ) (hi : i < P.length) (j : ℕ) (hj : j < d) :
+    (boundingBox P).1.getD j 0 ≤ (ptsGet P i).getD j 0 ∧ (ptsGet P i).getD j 0 ≤ (boundingBox P).2.getD j 0 :=
+  boundingBox_spec d P hP i hi j hj
+
+/-- **Curves lie inside the reported bounding box of the control polygon.** -/
+theorem curve_point_in_bounding_box (p : ℕ) (U : ℕ → K) (P : List (List K)) (k : ℕ) (u : K) (d j : ℕ)
+    (h : SpanOk U k u) (hp : p ≤ k) (hk : k < P.length) (hP : NetOk d P) (hj : j < d) :
+    (boundingBox P).1.getD j 0 ≤ (curvePointAt p U P k u).getD j 0 ∧
+      (curvePointAt p U P k u).getD j 0 ≤ (boundingBox P).2.getD j 0 :=
+  curvePointAt_in_boundingBox p U P k u d j h hp hk hP hj
+
+/-- **Surfaces lie inside the reported bounding box of the control net.** -/
+theorem surface_point_in_bounding_box (pu pv : ℕ) (Uu Uv : ℕ → K) (su sv : ℕ) (P : List (List K)) (ku kv : ℕ) (u v : K) (d j : ℕ)
+    (hu : SpanOk Uu ku u) (hv : SpanOk Uv kv v)
+    (hpu : pu ≤ ku) (hpv : pv ≤ kv) (hku : ku < su) (hkv : kv < sv) (hlen : P.length = su * sv) (hP : NetOk d P) (hj : j < d) :
+    (boundingBox P).1.getD j 0 ≤ (surfacePointAt pu pv Uu Uv sv P ku kv u v).getD j 0 ∧
+      (surfacePointAt pu pv Uu Uv sv P ku kv u v).getD j 0 ≤ (boundingBox P).2.getD j 0 :=
+  surfacePointAt_in_boundingBox pu pv Uu Uv su sv P ku kv u v d j hu hv hpu hpv hku hkv hlen hP hj
+
+/-- **Volumes lie inside the reported bounding box of the control net.** -/
+theorem volume_point_in_bounding_box (pu pv pw : ℕ) (Uu Uv Uw : ℕ → K) (su sv sw : ℕ) (P : List (List K))
+    (ku kv kw : ℕ) (u v w : K) (d j : ℕ)
+    (hu : SpanOk Uu ku u) (hv : SpanOk Uv kv v) (hw : SpanOk Uw kw w)
+    (hpu : pu ≤ ku) (hpv : pv ≤ kv) (hpw : pw ≤ kw) (hku : ku < su) (hkv : kv < sv) (hkw : kw < sw)
+    (hlen : P.length = su * sv * sw) (hP : NetOk d P) (hj : j < d) :
+    (boundingBox P).1.getD j 0 ≤ (volumePointAt pu pv pw Uu Uv Uw su sv P ku kv kw u v w).getD j 0 ∧
+      (volumePointAt pu pv pw Uu Uv Uw su sv P ku kv kw u v w).getD j 0 ≤ (boundingBox P).2.getD j 0 :=
+  volumePointAt_in_boundingBox pu pv pw Uu Uv Uw su sv sw P ku kv kw u v w d j hu hv hw hpu hpv hpw hku hkv hkw hlen hP hj
+
+/-- **Rational curves** (homogeneous control points `(x·w, w)`, weights of the active points positive):
+    the evaluated weight is positive (the division in `project` is by a non-zero number), and for every
+    linear functional the value at the projected point lies between any bounds of the functional on
+    the projected (Cartesian) active control points. -/
+theorem rational_curve_point_in_hull (p : ℕ) (U : ℕ → K) (Pw : List (List K)) (k : ℕ) (u : K) (d : ℕ)
+    (h : SpanOk U k u) (hp : p ≤ k) (hk : k < Pw.length) (hP : NetOk (d+1) Pw)
+    (hwt : ∀ r, r ≤ p → 0 < (ptsGet Pw (k - p + r)).getD d 0) (A : ℕ → K) (lo hi : K)
+    (hlo : ∀ r, r ≤ p → lo ≤ ∑ l ∈ range d, A l * (project (ptsGet Pw (k - p + r))).getD l 0)
+    (hhi : ∀ r, r ≤ p → ∑ l ∈ range d, A l * (project (ptsGet Pw (k - p + r))).getD l 0 ≤ hi) :
+    0 < (curvePointAt p U Pw k u).getD d 0 ∧
+    lo ≤ ∑ l ∈ range d, A l * (project (curvePointAt p U Pw k u)).getD l 0 ∧
+      ∑ l ∈ range d, A l * (project (curvePointAt p U Pw k u)).getD l 0 ≤ hi :=
+  curvePointAt_rational_in_hull p U Pw k u d h hp hk hP hwt A lo hi hlo hhi
+
+/-- **Rational surfaces**: the same for the projected tensor-product surface point. -/
+theorem rational_surface_point_in_hull (pu pv : ℕ) (Uu Uv : ℕ → K) (su sv : ℕ) (Pw : List (List K)) (ku kv : ℕ) (u v : K) (d : ℕ)
+    (hu : SpanOk Uu ku u) (hv : SpanOk Uv kv v)
+    (hpu : pu ≤ ku) (hpv : pv ≤ kv) (hku : ku < su) (hkv : kv < sv) (hlen : Pw.length = su * sv) (hP : NetOk (d+1) Pw)
+    (hwt : ∀ a b, a ≤ pu → b ≤ pv → 0 < (ptsGet Pw (kv - pv + b + sv * (ku - pu + a))).getD d 0)
+    (A : ℕ → K) (lo hi : K)
+    (hlo : ∀ a b, a ≤ pu → b ≤ pv →
+      lo ≤ ∑ l ∈ range d, A l * (project (ptsGet Pw (kv - pv + b + sv * (ku - pu + a)))).getD l 0)
+    (hhi : ∀ a b, a ≤ pu → b ≤ pv →
+      ∑ l ∈ range d, A l * (project (ptsGet Pw (kv - pv + b + sv * (ku - pu + a)))).getD l 0 ≤ hi) :
+    0 < (surfacePointAt pu pv Uu Uv sv Pw ku kv u v).getD d 0 ∧
+    lo ≤ ∑ l ∈ range d, A l * (project (surfacePointAt pu pv Uu Uv sv Pw ku kv u v)).getD l 0 ∧
+      ∑ l ∈ range d, A l * (project (surfacePointAt pu pv Uu Uv sv Pw ku kv u v)).getD l 0 ≤ hi :=
+  surfacePointAt_rational_in_hull pu pv Uu Uv su sv Pw ku kv u v d hu hv hpu hpv hku hkv hlen hP hwt A lo hi hlo hhi
+
+/-- **Rational volumes**: the same for the projected volume point. -/
+theorem rational_volume_point_in_hull (pu pv pw : ℕ) (Uu Uv Uw : ℕ → K) (su sv sw : ℕ) (Pw : List (List K))
+    (ku kv kw : ℕ) (u v w : K) (d : ℕ)
+    (hu : SpanOk Uu ku u) (hv : SpanOk Uv kv v) (hw : SpanOk Uw kw w)
+    (hpu : pu ≤ ku) (hpv : pv ≤ kv) (hpw : pw ≤ kw) (hku : ku < su) (hkv : kv < sv) (hkw : kw < sw)
+    (hlen : Pw.length = su * sv * sw) (hP : NetOk (d+1) Pw)
+    (hwt : ∀ a b c, a ≤ pu → b ≤ pv → c ≤ pw →
+      0 < (ptsGet Pw (kv - pv + b + sv * (ku - pu + a + su * (kw - pw + c)))).getD d 0)
+    (A : ℕ → K) (lo hi : K)
+    (hlo : ∀ a b c, a ≤ pu → b ≤ pv → c ≤ pw →
+      lo ≤ ∑ l ∈ range d, A l * (project (ptsGet Pw (kv - pv + b + sv * (ku - pu + a + su * (kw - pw + c))))).getD l 0)
+    (hhi : ∀ a b c, a ≤ pu → b ≤ pv → c ≤ pw →
+      ∑ l ∈ range d, A l * (project (ptsGet Pw (kv - pv + b + sv * (ku - pu + a + su * (kw - pw + c))))).getD l 0 ≤ hi) :
+    0 < (volumePointAt pu pv pw Uu Uv Uw su sv Pw ku kv kw u v w).getD d 0 ∧
+    lo ≤ ∑ l ∈ range d, A l * (project (volumePointAt pu pv pw Uu Uv Uw su sv Pw ku kv kw u v w)).getD l 0 ∧
+      ∑ l ∈ range d, A l * (project (volumePointAt pu pv pw Uu Uv Uw su sv Pw ku kv kw u v w)).getD l 0 ≤ hi :=
+  volumePointAt_rational_in_hull pu pv pw Uu Uv Uw su sv sw Pw ku kv kw u v w d hu hv hw hpu hpv hpw hku hkv hkw hlen hP hwt A lo hi hlo hhi
+
+/-- **Rational curves lie inside the reported bounding box** – the box of the Cartesian control points
+    `Pw.map project` (what `bbox` of a NURBS object scans), all weights positive. -/
+theorem rational_curve_point_in_bounding_box (p : ℕ) (U : ℕ → K) (Pw : List (List K)) (k : ℕ) (u : K) (d j : ℕ)
+    (h : SpanOk U k u) (hp : p ≤ k) (hk : k < Pw.length) (hP : NetOk (d+1) Pw)
+    (hwt : ∀ i, i < Pw.length → 0 < (ptsGet Pw i).getD d 0) (hj : j < d) :
+    (boundingBox (Pw.map project)).1.getD j 0 ≤ (project (curvePointAt p U Pw k u)).getD j 0 ∧
+      (project (curvePointAt p U Pw k u)).getD j 0 ≤ (boundingBox (Pw.map project)).2.getD j 0 :=
+  curvePointAt_rational_in_boundingBox p U Pw k u d j h hp hk hP hwt hj
+
+/-- **Rational surfaces lie inside the reported bounding box.** -/
+theorem rational_surface_point_in_bounding_box (pu pv : ℕ) (Uu Uv : ℕ → K) (su sv : ℕ) (Pw : List (List K)) (ku kv : ℕ) (u v : K) (d j : ℕ)
+    (hu : SpanOk Uu ku u) (hv : SpanOk Uv kv v)
+    (hpu : pu ≤ ku) (hpv : pv ≤ kv) (hku : ku < su) (hkv : kv < sv) (hlen : Pw.length = su * sv) (hP : NetOk (d+1) Pw)
+    (hwt : ∀ i, i < Pw.length → 0 < (ptsGet Pw i).getD d 0) (hj : j < d) :
+    (boundingBox (Pw.map project)).1.getD j 0 ≤ (project (surfacePointAt pu pv Uu Uv sv Pw ku kv u v)).getD j 0 ∧
+      (project (surfacePointAt pu pv Uu Uv sv Pw ku kv u v)).getD j 0 ≤ (boundingBox (Pw.map project)).2.getD j 0 :=
+  surfacePointAt_rational_in_boundingBox pu pv Uu Uv su sv Pw ku kv u v d j hu hv hpu hpv hku hkv hlen hP hwt hj
+
+/-- **Rational volumes lie inside the reported bounding box.** -/
+theorem rational_volume_point_in_bounding_box (pu pv pw : ℕ) (Uu Uv Uw : ℕ → K) (su sv sw : ℕ) (Pw : List (List K))
+    (ku kv kw : ℕ) (u v w : K) (d j : ℕ)
+    (hu : SpanOk Uu ku u) (hv : SpanOk Uv kv v) (hw : SpanOk Uw kw w)
+    (hpu : pu ≤ ku) (hpv : pv ≤ kv) (hpw : pw ≤ kw) (hku : ku < su) (hkv : kv < sv) (hkw : kw < sw)
+    (hlen : Pw.length = su * sv * sw) (hP : NetOk (d+1) Pw)
+    (hwt : ∀ i, i < Pw.length → 0 < (ptsGet Pw i).getD d 0) (hj : j < d) :
+    (boundingBox (Pw.map project)).1.getD j 0 ≤ (project (volumePointAt pu pv pw Uu Uv Uw su sv Pw ku kv kw u v w)).getD j 0 ∧
+      (project (volumePointAt pu pv pw Uu Uv Uw su sv Pw ku kv kw u v w)).getD j 0 ≤ (boundingBox (Pw.map project)).2.getD j 0 :=
+  volumePointAt_rational_in_boundingBox pu pv pw Uu Uv Uw su sv sw Pw ku kv kw u v w d j hu hv hw hpu hpv hpw hku hkv hkw hlen hP hwt hj
+
+/-- non-vacuity (rational volume, degrees 1,1,1, sizes 2×2×2, knots 0,0,1,1 in every direction, homogeneous
+    points `(x·w, y·w, w)` with weights 1, 2, 1, 3, …): the hypotheses of the bounding-box theorem hold -/
+example : (boundingBox (([[0,0,1],[2,0,2],[0,1,1],[3,3,3],[0,0,1],[4,0,2],[0,2,1],[1,1,1]] : List (List ℚ)).map project)).1.getD 0 0
+    ≤ (project (volumePointAt 1 1 1 (fnOf ([0,0,1,1] : List ℚ)) (fnOf ([0,0,1,1] : List ℚ)) (fnOf ([0,0,1,1] : List ℚ)) 2 2
+        ([[0,0,1],[2,0,2],[0,1,1],[3,3,3],[0,0,1],[4,0,2],[0,2,1],[1,1,1]] : List (List ℚ)) 1 1 1 (1/3) (1/3) (1/3))).getD 0 0 := by
+  have hs : SpanOk (fnOf ([0,0,1,1] : List ℚ)) 1 (1/3) := by
+    refine ⟨?_, by simp [fnOf, List.getD], by simp [fnOf, List.getD]; norm_num, by simp [fnOf, List.getD]⟩
+    apply monotone_nat_of_le_succ
+    intro n
+    rcases n with _|_|_|_|n <;> simp [fnOf, List.getD]
+  refine (rational_volume_point_in_bounding_box 1 1 1 _ _ _ 2 2 2 _ 1 1 1 _ _ _ 2 0 hs hs hs
+    (by omega) (by omega) (by omega) (by omega) (by omega) (by omega) rfl ?_ ?_ (by omega)).1
+  · intro pt hpt; simp at hpt; rcases hpt with h|h|h|h|h|h|h|h <;> simp [h]
+  · intro i hi
+    simp only [List.length_cons, List.length_nil] at hi
+    rcases i with _|_|_|_|_|_|_|_|i <;> simp [ptsGet, List.getD]
+    omega
 
 end C18
